@@ -372,6 +372,9 @@ def builtin_programs():
     ev_pool = [qb1, qb2, qbe, L(), ("call", "flood", (qb1,)), ("call", "query_bucket", (("call", "find_bucket", (S("b1"),)),))]
     rules = L(L(L(S("Work")), D(regex=S("code"))), L(L(S("Work"), S("Ed")), D(regex=S("foo"), ignore_case=("var", "true"))), L(L(S("Fun")), D(regex=S("news"), select_keys=L(S("title")))))
     tagrules = L(L(S("t1"), D(regex=S("code"))), L(S("t2"), D(regex=S("Cemu"))))
+    # rules that differ ONLY in select_keys / ignore_case (a seeded Rule cache keyed by the regex text reused the first)
+    rules_sel = L(L(L(S("All")), D(regex=S("code"))), L(L(S("App"), S("Only")), D(regex=S("code"), select_keys=L(S("app")))), L(L(S("T"), S("I"), S("C")), D(regex=S("CODE"), ignore_case=("var", "true"))), L(L(S("T"), S("C"), S("S")), D(regex=S("CODE"))))
+    tagrules_sel = L(L(S("all"), D(regex=S("o"))), L(S("app-only"), D(regex=S("o"), select_keys=L(S("app")))), L(S("url-only"), D(regex=S("o"), select_keys=L(S("url"), S("missing")))))
     calls = []
     for e in ev_pool:
         for f in ("sort_by_timestamp", "sort_by_duration", "sum_durations", "flood", "split_url_events"):
@@ -390,6 +393,9 @@ def builtin_programs():
         calls.append(("call", "categorize", (e, rules)))
         calls.append(("call", "categorize", (e, L())))
         calls.append(("call", "tag", (e, tagrules)))
+        calls.append(("call", "categorize", (e, rules_sel)))
+        calls.append(("call", "tag", (e, tagrules_sel)))
+        calls.append(("call", "tag", (("call", "categorize", (e, rules_sel)), tagrules_sel)))
         for e2 in ev_pool[:4]:
             for f in ("filter_period_intersect", "period_union", "concat", "union_no_overlap"):
                 calls.append(("call", f, (e, e2)))
